@@ -90,6 +90,102 @@ class Ref:
         return "&mut %r" % (self.get(),)
 
 
+class HSet:
+    """std::collections::HashSet model: membership by value, iteration in insertion order (or reversed when the
+    interpreter is asked to, to expose order dependence)."""
+
+    def __init__(self, items=()):
+        self.items = []
+        for x in items:
+            self.add(x)
+
+    def add(self, x):
+        if x in self.items:
+            return False
+        self.items.append(x)
+        return True
+
+    def __contains__(self, x):
+        return x in self.items
+
+    def __repr__(self):
+        return "HashSet%r" % (self.items,)
+
+
+class HMap:
+    def __init__(self):
+        self.keys = []
+        self.vals = {}
+
+    def _k(self, k):
+        return repr(k)
+
+    def get(self, k):
+        return self.vals.get(self._k(k), (None, None))[1] if self._k(k) in self.vals else None
+
+    def has(self, k):
+        return self._k(k) in self.vals
+
+    def put(self, k, v):
+        kk = self._k(k)
+        old = self.vals[kk][1] if kk in self.vals else None
+        had = kk in self.vals
+        if not had:
+            self.keys.append(kk)
+        self.vals[kk] = (k, v)
+        return had, old
+
+    def pop(self, k):
+        kk = self._k(k)
+        if kk in self.vals:
+            self.keys.remove(kk)
+            return True, self.vals.pop(kk)[1]
+        return False, None
+
+    def items(self):
+        return [self.vals[kk] for kk in self.keys]
+
+    def __repr__(self):
+        return "HashMap%r" % (self.items(),)
+
+
+class MapSlot(Ref):
+    """A place inside a HashMap value (entry handle / get_mut target)."""
+
+    def __init__(self, m, k):
+        self.m, self.k = m, k
+
+    def get(self):
+        return self.m.get(self.k)
+
+    def set(self, v):
+        self.m.put(self.k, v)
+
+
+class FmtArg:
+    def __init__(self, value):
+        self.value = value
+
+
+class FmtArgs:
+    def __init__(self, text):
+        self.text = text
+
+
+def fmt_value(v):
+    if isinstance(v, Ref):
+        v = v.get()
+    if isinstance(v, bool):
+        return "true" if v else "false"
+    if isinstance(v, (int, str)):
+        return str(v)
+    if isinstance(v, float):
+        return repr(v)
+    if isinstance(v, Enum) and len(v.fields) == 1 and "0" in v.fields and not isinstance(v.fields["0"], (Enum, Opaque)):
+        return fmt_value(v.fields["0"])
+    raise Unknown("formatting of %r" % (v,))
+
+
 class PyFn:
     """A function item used as a value (`.map(Some)`, `.map_or(x, f)`)."""
 
@@ -122,6 +218,7 @@ class Interp:
         self.max_depth = max_depth
         self.extern = extern or {}   # callee path suffix -> python callable(args)->value
         self.max_loop = 64
+        self.reverse_hash_order = False      # iterate hash containers backwards (exposes dependence on hash order)
         self.formatted = []          # strings handed to the formatting machinery (diagnostic text is not modelled further)
 
     # ---- patterns ----------------------------------------------------
@@ -442,6 +539,13 @@ class Interp:
             seq = list(range(lo, hi + (1 if itv.adt == "RangeInclusive" else 0)))
         elif isinstance(itv, (list, tuple)):
             seq = list(itv)
+        elif isinstance(itv, HSet):
+            seq = self.hash_order(list(itv.items))
+        elif isinstance(itv, HMap):
+            seq = self.hash_order([(k, v) for k, v in itv.items()])
+        elif isinstance(itv, Ref) and isinstance(itv.get(), (list, HSet, HMap)):
+            g = itv.get()
+            seq = list(g) if isinstance(g, list) else (self.hash_order(list(g.items)) if isinstance(g, HSet) else self.hash_order([(k, v) for k, v in g.items()]))
         else:
             raise Unknown("for over %r" % (itv,))
         if len(seq) > self.max_loop:
@@ -617,6 +721,78 @@ class Interp:
                 return Enum("Option", "None")
             v1 = self.ev(args[1], env, depth)
             return Enum("Option", "Some", {"0": v1 if short(gen) == "then_some" else self.call_callable(v1, [], depth)})
+        if gen.startswith("core::num::<impl ") and short(gen) in ("next_multiple_of", "next_power_of_two", "max", "min", "pow", "abs", "unsigned_abs",
+                                                                  "wrapping_add", "wrapping_sub", "wrapping_mul", "checked_add", "checked_sub", "checked_mul", "saturating_sub"):
+            m = short(gen)
+            ty = gen[len("core::num::<impl "):].split(">")[0]
+            a0 = self.ev(args[0], env, depth)
+            rest = [self.ev(x, env, depth) for x in args[1:]]
+            if not isinstance(a0, int) or any(not isinstance(x, int) for x in rest):
+                raise Unknown("%s on non-integers" % m)
+            bits = INT_BITS.get(ty, 64)
+            lo, hi = (-(1 << (bits - 1)), (1 << (bits - 1)) - 1) if ty.startswith("i") else (0, (1 << bits) - 1)
+
+            def wrapv(v):
+                v &= (1 << bits) - 1
+                return v - (1 << bits) if ty.startswith("i") and v > hi else v
+            if m == "next_multiple_of":
+                if rest[0] == 0:
+                    raise Unknown("core::panicking: next_multiple_of(0)")
+                r = ((a0 + rest[0] - 1) // rest[0]) * rest[0]
+                if r > hi:
+                    raise Unknown("core::panicking: next_multiple_of overflow")
+                return r
+            if m == "next_power_of_two":
+                r = 1
+                while r < a0:
+                    r <<= 1
+                return r
+            if m in ("max", "min"):
+                return max(a0, rest[0]) if m == "max" else min(a0, rest[0])
+            if m in ("abs", "unsigned_abs"):
+                return abs(a0)
+            if m.startswith("wrapping_"):
+                return wrapv({"add": a0 + rest[0], "sub": a0 - rest[0], "mul": a0 * rest[0]}[m[9:]])
+            if m.startswith("checked_"):
+                r = {"add": a0 + rest[0], "sub": a0 - rest[0], "mul": a0 * rest[0]}[m[8:]]
+                return Enum("Option", "Some", {"0": r}) if lo <= r <= hi else Enum("Option", "None")
+            if m == "saturating_sub":
+                return max(lo, a0 - rest[0])
+            if m == "pow":
+                return a0 ** rest[0]
+        if gen in ("core::cmp::Ord::max", "core::cmp::Ord::min"):
+            a0, b0 = self.ev(args[0], env, depth), self.ev(args[1], env, depth)
+            if isinstance(a0, (int, float)) and isinstance(b0, (int, float)):
+                return max(a0, b0) if gen.endswith("max") else min(a0, b0)
+            raise Unknown("max/min of non-numbers")
+        if gen in ("core::convert::TryFrom::try_from", "core::convert::TryInto::try_into"):
+            v = self.ev(args[0], env, depth)
+            ty = (e.get("ty") or "")
+            tgt = None
+            for k_ in INT_BITS:
+                if "Result<%s," % k_ in ty.replace("core::result::", ""):
+                    tgt = k_
+            if isinstance(v, int) and not isinstance(v, bool) and tgt:
+                bits = INT_BITS[tgt]
+                lo, hi = (-(1 << (bits - 1)), (1 << (bits - 1)) - 1) if tgt.startswith("i") else (0, (1 << bits) - 1)
+                return Enum("Result", "Ok", {"0": v}) if lo <= v <= hi else Enum("Result", "Err", {"0": Opaque("TryFromIntError")})
+            raise Unknown("try_from of %r to %s" % (v, ty))
+        if gen.startswith(("std::collections::hash::set::HashSet", "std::collections::hash::map::HashMap", "std::collections::hash::map::Entry",
+                           "std::collections::hash::map::OccupiedEntry", "std::collections::hash::map::VacantEntry")):
+            return self.hash_method(gen, args, env, depth)
+        if gen in ("core::iter::traits::collect::Extend::extend", "alloc::vec::Vec::<T, A>::extend_from_slice", "alloc::vec::Vec::<T, A>::append"):
+            v = self.ev(args[0], env, depth)
+            o = self.ev(args[1], env, depth)
+            if isinstance(v, Ref):
+                v = v.get()
+            if isinstance(o, Ref):
+                o = o.get()
+            if isinstance(v, list) and isinstance(o, (list, tuple)):
+                v.extend(o)
+                if short(gen) == "append" and isinstance(o, list):
+                    del o[:]
+                return ()
+            raise Unknown("%s of %r with %r" % (short(gen), v, o))
         if gen in ("core::option::Option::<T>::is_some", "core::option::Option::<T>::is_none", "core::result::Result::<T, E>::is_ok", "core::result::Result::<T, E>::is_err"):
             v = self.ev(args[0], env, depth)
             if isinstance(v, Enum) and v.variant in ("Some", "None", "Ok", "Err"):
@@ -640,11 +816,51 @@ class Interp:
             if isinstance(v, (list, tuple)):
                 return len(v) == 0
             raise Unknown("is_empty of %r" % (v,))
+        if gen in ("alloc::fmt::format", "core::hint::must_use", "alloc::fmt::format::format_inner"):
+            v = self.ev(args[0], env, depth)
+            if isinstance(v, FmtArgs):
+                return v.text
+            if gen == "core::hint::must_use":
+                return v
+            raise Unknown("format of %r" % (v,))
         if gen.startswith("core::fmt::"):
-            # formatting machinery: arguments are evaluated (a slice that aborts must abort here too), output is not modelled
+            # formatting machinery, modelled for plain `{}` / `{:?}` templates: arguments are evaluated (a slice that
+            # aborts must abort here too) and the text is assembled
+            m = short(gen)
+            if m.startswith("new_") and "Argument" in gen:
+                return FmtArg(self.ev(args[0], env, depth))
+            if "Arguments" in gen:
+                import facts as _F
+                tmpl = None
+                vals = []
+                for a in args:
+                    sa = _F.strip(a)
+                    if sa.get("k") == "Lit" and sa.get("t") == "bytes":
+                        tmpl = _F.decode_fmt(sa["b"])
+                    elif sa.get("k") == "Lit" and sa.get("t") == "str":
+                        tmpl = [("lit", sa["v"])]
+                    else:
+                        v = self.ev(a, env, depth)
+                        if isinstance(v, (list, tuple)):
+                            vals = list(v)
+                if tmpl is None:
+                    raise Unknown("format template")
+                out = []
+                for kind, x in tmpl:
+                    if kind == "lit":
+                        out.append(x)
+                    else:
+                        if x is None or x >= len(vals):
+                            raise Unknown("format argument index")
+                        out.append(fmt_value(vals[x].value if isinstance(vals[x], FmtArg) else vals[x]))
+                return FmtArgs("".join(out))
             vals = [self.ev(a, env, depth) for a in args]
-            self.formatted += [v for v in vals if isinstance(v, str)]
-            if short(gen) in ("write_fmt", "write_str", "write_char", "pad"):
+            for v in vals:
+                if isinstance(v, FmtArgs):
+                    self.formatted.append(v.text)
+                elif isinstance(v, str):
+                    self.formatted.append(v)
+            if m in ("write_fmt", "write_str", "write_char", "pad"):
                 return Enum("Result", "Ok", {"0": ()})
             return Opaque("fmt")
         if gen in ("core::str::<impl str>::split_at", "core::str::<impl str>::find", "core::str::<impl str>::rfind", "core::str::<impl str>::is_char_boundary",
@@ -811,6 +1027,99 @@ class Interp:
         if m == "or":
             return v if some else ev(0)
         raise Unknown("Option/Result method " + m)
+
+    def hash_method(self, gen, args, env, depth):
+        m = short(gen)
+        is_set = "::set::HashSet" in gen
+        if m in ("new", "with_capacity", "default"):
+            return HSet() if is_set else HMap()
+        recv = self.ev(args[0], env, depth)
+        if isinstance(recv, Ref) and not isinstance(recv, MapSlot):
+            recv = recv.get()
+        ev = lambda i: self.ev(args[i], env, depth)
+        if isinstance(recv, HSet):
+            if m == "insert":
+                return recv.add(ev(1))
+            if m == "contains":
+                x = ev(1)
+                return x in recv
+            if m == "remove":
+                x = ev(1)
+                if x in recv.items:
+                    recv.items.remove(x)
+                    return True
+                return False
+            if m == "clone":
+                return HSet(recv.items)
+            if m in ("len",):
+                return len(recv.items)
+            if m == "is_empty":
+                return not recv.items
+            if m in ("iter", "into_iter", "drain"):
+                return self.hash_order(list(recv.items))
+            if m == "extend":
+                for x in ev(1):
+                    recv.add(x)
+                return ()
+        if isinstance(recv, HMap):
+            if m == "insert":
+                had, old = recv.put(ev(1), ev(2))
+                return Enum("Option", "Some", {"0": old}) if had else Enum("Option", "None")
+            if m in ("get", "get_mut"):
+                k = ev(1)
+                if not recv.has(k):
+                    return Enum("Option", "None")
+                return Enum("Option", "Some", {"0": MapSlot(recv, k) if m == "get_mut" else recv.get(k)})
+            if m == "contains_key":
+                return recv.has(ev(1))
+            if m == "remove":
+                had, old = recv.pop(ev(1))
+                return Enum("Option", "Some", {"0": old}) if had else Enum("Option", "None")
+            if m == "len":
+                return len(recv.keys)
+            if m == "is_empty":
+                return not recv.keys
+            if m in ("iter", "into_iter", "iter_mut", "drain"):
+                return self.hash_order([(k, v) for k, v in recv.items()])
+            if m == "keys":
+                return self.hash_order([k for k, v in recv.items()])
+            if m in ("values", "values_mut", "into_values"):
+                return self.hash_order([v for k, v in recv.items()])
+            if m == "clone":
+                c = HMap()
+                for k, v in recv.items():
+                    c.put(k, v)
+                return c
+            if m == "entry":
+                k = ev(1)
+                return Enum("Entry", "Occupied" if recv.has(k) else "Vacant", {"0": MapSlot(recv, k)})
+        if isinstance(recv, Enum) and recv.adt == "Entry":
+            slot = recv.fields["0"]
+            if m in ("or_default", "or_insert", "or_insert_with"):
+                if recv.variant == "Vacant":
+                    if m == "or_default":
+                        ty = (args[0].get("ty") or "")
+                        slot.set([] if "Vec<" in ty else (HSet() if "HashSet<" in ty else (HMap() if "HashMap<" in ty else 0)))
+                    elif m == "or_insert":
+                        slot.set(ev(1))
+                    else:
+                        slot.set(self.call_callable(ev(1), [], depth))
+                return slot
+        if isinstance(recv, MapSlot):
+            if m in ("get_mut", "into_mut"):
+                return recv
+            if m == "get":
+                return recv.get()
+            if m == "insert":
+                old = recv.get()
+                recv.set(ev(1))
+                return recv if "VacantEntry" in gen else old
+            if m == "key":
+                return recv.k
+        raise Unknown("hash container method %s on %r" % (m, recv))
+
+    def hash_order(self, items):
+        return items[::-1] if self.reverse_hash_order else items
 
     def call_closure(self, c, vals, depth):
         body = self.facts.bodies.get(c.path)
